@@ -34,6 +34,13 @@ type c43Step struct {
 	Op    string   `json:"op,omitempty"`    // req: read, insert, update, delete, create, drop
 	Via   string   `json:"via,omitempty"`   // rows, abstract, tx
 	N     int64    `json:"n,omitempty"`     // row id / table number
+	// txscript: a multi-operation @transaction script (each entry: operation + table)
+	Script []c43TxOp `json:"script,omitempty"`
+}
+
+type c43TxOp struct {
+	Op    string `json:"op"`
+	Table string `json:"table"`
 }
 
 type c43History struct {
@@ -233,6 +240,59 @@ func genC43History(rng *rand.Rand, steps int, tag string) *c43History {
 			h.Steps = append(h.Steps, c43Step{Kind: "dgrant", User: c43Users[rng.Intn(3)], DSN: dsn, Perms: []string{p}})
 		case x < 40:
 			h.Steps = append(h.Steps, c43Step{Kind: "dsnflag", DSN: c43DSNs[rng.Intn(2)], Flag: rng.Intn(2) == 0})
+		case x < 50:
+			// a multi-operation transaction script by a non-administrator: a permitted operation before or after one that is
+			// not, on one table or across two
+			n++
+			s := c43Step{Kind: "txscript", User: c43Users[rng.Intn(3)], DSN: "d_restricted", N: n}
+
+			if rng.Intn(6) == 0 {
+				s.DSN = "d_open"
+			}
+
+			ops := []string{"read", "insert", "update", "delete"}
+			k := 2 + rng.Intn(2)
+
+			t1 := c43Tables[rng.Intn(2)]
+			for i := 0; i < k; i++ {
+				tn := t1
+				if rng.Intn(3) == 0 {
+					tn = c43Tables[rng.Intn(2)]
+				}
+
+				s.Script = append(s.Script, c43TxOp{Op: ops[rng.Intn(4)], Table: tn})
+			}
+
+			if rng.Intn(2) == 0 {
+				s.Script[0].Op = "read" // the classic: a select the user may do, then a write
+			}
+
+			// often the user is given exactly what ONE operation of the script needs (the first or the last), and access to the
+			// DSN, so that a permitted operation stands before or after one that is not
+			if rng.Intn(3) != 0 {
+				g := s.Script[0]
+				if rng.Intn(3) == 0 {
+					g = s.Script[len(s.Script)-1]
+				}
+
+				perm := map[string]string{"read": "ego.table.read", "insert": "ego.table.write", "update": "ego.table.update", "delete": "ego.table.delete"}[g.Op]
+				h.Steps = append(h.Steps,
+					c43Step{Kind: "dgrant", User: s.User, DSN: s.DSN, Perms: []string{"+ego.dsn.read", "+ego.dsn.write"}},
+					c43Step{Kind: "tgrant", User: s.User, DSN: s.DSN, Table: g.Table, Perms: []string{"+" + perm}})
+			}
+
+			h.Steps = append(h.Steps, s)
+		case x < 58:
+			// a REST transaction opened by the administrator, used by somebody else through ?transaction=<id>
+			n++
+			s := c43Step{Kind: "resttx", User: c43Users[rng.Intn(3)], DSN: "d_restricted", Table: c43Tables[rng.Intn(2)], N: n,
+				Op: []string{"read", "insert", "update", "delete"}[rng.Intn(4)], Via: []string{"rows", "abstract"}[rng.Intn(2)]}
+
+			if s.Op == "delete" {
+				s.Via = "rows"
+			}
+
+			h.Steps = append(h.Steps, s)
 		default:
 			n++
 			s := c43Step{Kind: "req", User: c43Users[rng.Intn(3)], DSN: c43DSNs[rng.Intn(2)], Table: c43Tables[rng.Intn(2)], N: n}
@@ -442,6 +502,10 @@ func (c *c43Run) runHistory(h *c43History, hid string) {
 			r.Count("steps.dsn-flag", 1)
 		case "req":
 			c.request(h, si, s, m, hid)
+		case "txscript":
+			c.txScript(h, si, s, m, hid)
+		case "resttx":
+			c.restTx(h, si, s, m, hid)
 		}
 	}
 }
@@ -653,11 +717,318 @@ func (c *c43Run) request(h *c43History, si int, s c43Step, m *c43Model, hid stri
 	}
 }
 
+// maxID: the largest id of a table (observed), or false when it has no row
+func (c *c43Run) maxID(table string) (int64, bool) {
+	var id int64
+	if err := c.e.checker().QueryRow(`SELECT id FROM ` + qid(table) + ` ORDER BY id DESC LIMIT 1`).Scan(&id); err != nil {
+		return 0, false
+	}
+
+	return id, true
+}
+
+func c43Row(table string, id int64, marker string) map[string]any {
+	if table == "t" {
+		return map[string]any{"id": id, "name": marker, "grp": "g", "score": 1.5, "flag": true, "uq": 300000 + id}
+	}
+
+	return map[string]any{"id": id, "name": marker, "note": "n"}
+}
+
+// txScript: one @transaction request with several operations; the script is allowed only if every operation is.
+func (c *c43Run) txScript(h *c43History, si int, s c43Step, m *c43Model, hid string) {
+	e, r := c.e, c.r
+	marker := fmt.Sprintf("s%s-%d", hid, si)
+
+	var tasks []map[string]any
+
+	verdict, why := 1, "every operation of the script is granted"
+	inserted := map[string]int64{}
+	order, permittedWrite := "", false
+
+	for oi, op := range s.Script {
+		v, w := m.verdict(c43Step{User: s.User, DSN: s.DSN, Table: op.Table, Op: op.Op, Via: "tx"})
+		if v == -1 && verdict != -1 {
+			verdict, why = -1, fmt.Sprintf("operation %d (%s on %s): %s", oi+1, op.Op, op.Table, w)
+
+			switch {
+			case oi == 0:
+				order = "refused-operation-first"
+			case permittedWrite:
+				order = "refused-after-permitted-write"
+			default:
+				order = "refused-after-permitted-read"
+			}
+		} else if v == 1 && op.Op != "read" {
+			permittedWrite = true
+		}
+
+		if v == 0 && verdict == 1 {
+			verdict, why = 0, w
+		}
+
+		target, ok := c.maxID(op.Table)
+		if !ok && op.Op != "insert" {
+			r.Count("requests.skipped.no-row", 1)
+
+			return
+		}
+
+		flt := []string{fmt.Sprintf("EQ(id,%d)", target)}
+
+		switch op.Op {
+		case "read":
+			tasks = append(tasks, map[string]any{"operation": "select", "table": op.Table, "filters": flt, "columns": []string{"id"}})
+		case "insert":
+			id := 800000 + s.N*10 + int64(oi)
+			inserted[op.Table] = id
+			tasks = append(tasks, map[string]any{"operation": "insert", "table": op.Table, "data": c43Row(op.Table, id, marker)})
+		case "update":
+			tasks = append(tasks, map[string]any{"operation": "update", "table": op.Table, "filters": flt, "data": map[string]any{"name": marker}})
+		case "delete":
+			tasks = append(tasks, map[string]any{"operation": "delete", "table": op.Table, "filters": flt})
+		}
+	}
+
+	body, _ := json.Marshal(tasks)
+	before := c.state()
+	resp := e.Do(s.User, "POST", "/dsns/"+s.DSN+"/tables/@transaction", body)
+	after := c.state()
+
+	r.Count("requests", 1)
+	r.Count("requests.txscript", 1)
+	r.Count(fmt.Sprintf("status.%d", resp.Status), 1)
+	r.Eval(fmt.Sprintf("%s|%s|script|%v|%d|%s", s.User, s.DSN, s.Script, verdict, why), true)
+
+	viol := func(what, desc string) {
+		r.Violate(vh.Violation{Key: "script:tx:" + what, Desc: fmt.Sprintf("POST …/@transaction %s as %s on %s -> %d %s: %s; model: %s", vh.Trunc(string(body), 300), s.User, s.DSN, resp.Status, vh.Trunc(msgOrBody(resp), 120), desc, why),
+			Case: map[string]any{"history": h, "failing_step": si}, Expected: map[int]string{1: "allowed", -1: "denied", 0: "unspecified"}[verdict], Observed: resp.Status})
+	}
+
+	ok := resp.Status < 400 && resp.Panic == ""
+
+	switch verdict {
+	case 1:
+		r.Count("model.allowed", 1)
+
+		if !ok {
+			viol("allowed-but-refused", "every operation is granted")
+
+			break
+		}
+
+		for tn, id := range inserted {
+			stillThere := true
+
+			for _, op := range s.Script {
+				if op.Op == "delete" && op.Table == tn {
+					stillThere = false // a later delete of the newest row may have taken it
+				}
+			}
+
+			if stillThere && c.count(tn, "id=?", id) != 1 {
+				viol("allowed-no-effect", fmt.Sprintf("success, but the inserted row %d of %s is not there", id, tn))
+			}
+		}
+
+		r.Count("verified.allowed-and-done", 1)
+	case -1:
+		r.Count("model.denied", 1)
+		r.Count("script.denied."+order, 1)
+
+		switch {
+		case ok:
+			viol("denied-but-performed", "an operation of the script is not granted, yet the script was carried out")
+		case before != after:
+			viol("denied-but-changed", "the script was refused, but the database changed (an operation before the refused one stayed applied)")
+		default:
+			r.Count("verified.denied-and-unchanged", 1)
+
+			if resp.Status != 403 {
+				r.Count(fmt.Sprintf("denied.with-status.%d", resp.Status), 1)
+			}
+		}
+	default:
+		r.Count("model.unspecified", 1)
+
+		if !ok && before != after {
+			viol("refused-but-changed", "refused, but the database changed")
+		}
+	}
+}
+
+// restTx: the administrator opens a REST transaction on the DSN; somebody else then uses it through ?transaction=<id>.
+// That user is judged by his own table grants.
+func (c *c43Run) restTx(h *c43History, si int, s c43Step, m *c43Model, hid string) {
+	e, r := c.e, c.r
+
+	target, okRow := c.maxID(s.Table)
+	if !okRow && s.Op != "insert" {
+		r.Count("requests.skipped.no-row", 1)
+
+		return
+	}
+
+	bg := e.Do("admin", "GET", "/dsns/"+s.DSN+"/begin", nil)
+
+	var tx struct {
+		ID string `json:"id"`
+	}
+
+	_ = json.Unmarshal(bg.Body, &tx)
+
+	if bg.Status != 200 || tx.ID == "" {
+		c.t.Fatalf("begin: %d %s", bg.Status, bg.Body)
+	}
+
+	marker := fmt.Sprintf("x%s-%d", hid, si)
+	newID := 900000 + s.N
+	base := "/dsns/" + s.DSN + "/tables/" + s.Table + "/rows"
+	abs := ""
+
+	if s.Via == "abstract" {
+		abs = "&abstract=true"
+	}
+
+	var method, path, body string
+
+	switch s.Op {
+	case "read":
+		method, path = "GET", base+q("filter", fmt.Sprintf("EQ(id,%d)", target), "transaction", tx.ID)+abs
+	case "insert":
+		row := c43Row(s.Table, newID, marker)
+		if s.Via == "abstract" {
+			keys := []string{}
+			for k := range row {
+				keys = append(keys, k)
+			}
+
+			sort.Strings(keys)
+
+			var cols, vals []string
+
+			for _, k := range keys {
+				cols = append(cols, fmt.Sprintf(`{"name":%q}`, k))
+				vb, _ := json.Marshal(row[k])
+				vals = append(vals, string(vb))
+			}
+
+			cols = append(cols, `{"name":"_row_id_","type":"string"}`)
+			vals = append(vals, `""`)
+			body = fmt.Sprintf(`{"columns":[%s],"rows":[[%s]],"count":1}`, strings.Join(cols, ","), strings.Join(vals, ","))
+		} else {
+			b, _ := json.Marshal(row)
+			body = string(b)
+		}
+
+		method, path = "PUT", base+q("transaction", tx.ID)+abs
+	case "update":
+		method, path = "PATCH", base+q("filter", fmt.Sprintf("EQ(id,%d)", target), "transaction", tx.ID)+abs
+		body = fmt.Sprintf(`{"name":%q}`, marker)
+
+		if s.Via == "abstract" {
+			body = fmt.Sprintf(`{"columns":[{"name":"name"}],"rows":[[%q]],"count":1}`, marker)
+		}
+	case "delete":
+		method, path = "DELETE", base+q("filter", fmt.Sprintf("EQ(id,%d)", target), "transaction", tx.ID)
+	}
+
+	before := c.state()
+
+	var b []byte
+	if body != "" {
+		b = []byte(body)
+	}
+
+	resp := e.Do(s.User, method, path, b)
+
+	// the owner commits, so that anything written inside the transaction becomes visible to the monitor
+	cm := e.Do("admin", "GET", "/dsns/"+s.DSN+"/commit"+q("transaction", tx.ID), nil)
+	if cm.Status != 200 {
+		_ = e.Do("admin", "GET", "/dsns/"+s.DSN+"/rollback"+q("transaction", tx.ID), nil)
+		r.Count("resttx.commit-failed", 1)
+	}
+
+	after := c.state()
+
+	// table grants decide (the property); the DSN-level step is not taken by a request that rides on somebody else's transaction
+	verdict, why := m.verdict(c43Step{User: s.User, DSN: s.DSN, Table: s.Table, Op: s.Op, Via: s.Via})
+	if verdict == -1 && !strings.HasPrefix(why, "no ego.table.") {
+		verdict, why = 0, "DSN-level: "+why
+	}
+
+	r.Count("requests", 1)
+	r.Count("requests.resttx."+s.Op+"."+s.Via, 1)
+	r.Count(fmt.Sprintf("status.%d", resp.Status), 1)
+	r.Eval(fmt.Sprintf("%s|%s|%s|resttx|%s|%s|%d|%s", s.User, s.DSN, s.Table, s.Op, s.Via, verdict, why), true)
+
+	viol := func(what, desc string) {
+		r.Violate(vh.Violation{Key: s.Op + ":resttx-" + s.Via + ":" + what, Desc: fmt.Sprintf("%s %s as %s inside the administrator's transaction -> %d %s: %s; model: %s", method, vh.Trunc(path, 170), s.User, resp.Status, vh.Trunc(msgOrBody(resp), 120), desc, why),
+			Case: map[string]any{"history": h, "failing_step": si}, Expected: map[int]string{1: "allowed", -1: "denied", 0: "unspecified"}[verdict], Observed: resp.Status})
+	}
+
+	ok := resp.Status < 400 && resp.Panic == ""
+	effect := false
+
+	switch s.Op {
+	case "read":
+		n := 0
+
+		if s.Via == "abstract" {
+			if rows, err := decodeAbstract(resp.Body); err == nil {
+				n = len(rows)
+			}
+		} else if rows, err := decodeRows(resp.Body); err == nil {
+			n = len(rows)
+		}
+
+		effect = resp.Status == 200 && n == 1
+	case "insert":
+		effect = c.count(s.Table, "id=?", newID) == 1
+	case "update":
+		effect = c.count(s.Table, "id=? AND name=?", target, marker) == 1
+	case "delete":
+		effect = c.count(s.Table, "id=?", target) == 0
+	}
+
+	switch verdict {
+	case 1:
+		r.Count("model.allowed", 1)
+
+		switch {
+		case !ok:
+			viol("allowed-but-refused", "the user's grants allow this request")
+		case !effect:
+			viol("allowed-no-effect", "status says success but the effect is not in the database / answer after the commit")
+		default:
+			r.Count("verified.allowed-and-done", 1)
+		}
+	case -1:
+		r.Count("model.denied", 1)
+
+		switch {
+		case ok && (effect || s.Op == "read"):
+			viol("denied-but-performed", "the user has no matching table grant of his own, yet the request was carried out inside the other user's transaction")
+		case ok:
+			viol("denied-but-accepted", "the user has no matching table grant of his own, yet the request was answered with success")
+		case before != after:
+			viol("denied-but-changed", "refused, but the database changed")
+		default:
+			r.Count("verified.denied-and-unchanged", 1)
+		}
+	default:
+		r.Count("model.unspecified", 1)
+		r.Count(fmt.Sprintf("unspecified.resttx.%s.status.%d", s.Op, resp.Status), 1)
+	}
+}
+
 func TestC43(t *testing.T) {
 	e := getEnv(t)
 	r := vh.New("C43", "grants")
 	r.Rule = "histories of 40 steps: table grants/revokes (+/- read, write, update, delete, admin) per (user, DSN, table), DSN-level grants/revokes and restricted-flag changes, all by the administrator through the REST handlers, " +
-		"interleaved with row read/insert/update/delete (plain, abstract, @transaction task) and table create/drop requests by alice, bob, erin and admin on d_restricted and d_open (same file, tables t and other). " +
+		"interleaved with row read/insert/update/delete (plain, abstract, @transaction task) and table create/drop requests by alice, bob, erin and admin on d_restricted and d_open (same file, tables t and other), " +
+		"with multi-operation @transaction scripts in which a granted operation stands before or after one that is not (one table or two; the whole script must be refused and leave every table unchanged), " +
+		"and with row requests that ride on a REST transaction opened by the administrator (…/begin, ?transaction=<id>, commit): the rider is judged by his own table grants. " +
 		"A case = one request with its model verdict; distinct = (user, DSN, table, operation, path kind, verdict, reason); requests by non-administrators are non-trivial."
 	r.Assume("SQLite only; user and permission stores are the server's SQLite-backed stores and stay available (the property excludes their outage)")
 	r.Assume("no user holds an identity-wide ego.dsn.* permission; where a user holds a DSN-level record that lacks the matching action bit, no verdict is given (the property speaks about table grants)")
